@@ -23,6 +23,63 @@ class _Reached(Exception):
 
 
 def swap_then_notify(ctx, repo, cname):
+    """R1 / R2 by interpretation (witness scenarios): the structure is built by its constructor, given three model
+    accessors that record, at the moment they are notified, their arguments AND the block the structure holds then;
+    replace_status_block_segment is interpreted for patches at the start, in the middle, at the very end, of one byte and
+    of the whole block.  The statement-shape rules that used to decide this alarmed on equivalent rewrites (splice and
+    notification loop moved into shared module-level helpers) and were retired."""
+    from ..absint import ClassRef, Interp, Native, Obj, Opaque, PyRaise, Undecided
+    fi = repo.method(cname, "replace_status_block_segment")
+    key = fi.qual
+    ctx.ob("R1", f"{key}::synchronous", not fi.is_async, f"{fi.qual} is a coroutine: observers could see a half-updated block", fi.loc)
+    init = next((k.methods["__init__"] for k in repo.mro(repo.cls(cname)) if "__init__" in k.methods), None)
+    n_pos = len(init.node.args.args) - 1 - len(init.node.args.defaults) if init is not None else 0
+    n = 0
+    for label, off, seg in (("start", 0, bytes(range(1, 40))), ("middle", 500, b"\xaa\xbb"), ("one-byte", 700, b"\x5a"), ("very-end", 1024 - 39, bytes(range(200, 239))),
+                            ("whole-block", 0, bytes((i * 7) % 256 for i in range(1024)))):
+        it = Interp(repo, max_depth=10)
+        try:
+            st = it.apply(ClassRef(repo.cls(cname)), [Opaque(f"callback{i}") for i in range(n_pos)], {})
+            before = it.getattr(st, "status_block")
+        except (PyRaise, Undecided) as e:
+            raise AnalysisError(f"{cname}(...) cannot be constructed by interpretation: {e}")
+        if not isinstance(before, bytes) or len(before) != 1024:
+            raise AnalysisError(f"{cname}: status block after construction is not 1024 bytes")
+        seen = []
+
+        def acc(name, st=st, seen=seen, it=it):
+            o = Obj(None, {"tag": name}, name=f"acc<{name}>")
+            o.attrs["status_block_changed"] = Native(lambda a, k, name=name: seen.append((name, tuple(a), it.getattr(st, "status_block"))), "status_block_changed")
+            return o
+        try:
+            accs = it.getattr(st, "accessors")
+            if not isinstance(accs, dict):
+                raise AnalysisError(f"{cname}.accessors is not a dict after construction")
+            for nm in ("A", "B", "C"):
+                accs[nm] = acc(nm)
+            it.steps = 0
+            it.call(fi, st, [off, seg])
+            after = it.getattr(st, "status_block")
+        except PyRaise as e:
+            after = f"raises {e.what}"
+        except Undecided as e:
+            raise AnalysisError(f"{fi.qual}: cannot interpret: {e}")
+        want_block = before[:off] + seg + before[off + len(seg):]
+        n += 1
+        ctx.ob("R1", f"{key}::splice::{label}", after == want_block,
+               f"{fi.qual}({off}, <{len(seg)} bytes>) leaves a block of {len(after) if isinstance(after, bytes) else after} bytes that is not old[:offset] + segment + old[offset+len(segment):]", fi.loc,
+               sample={"rule": "R1", "function": fi.qual, "case": label} if label == "middle" else None)
+        names = [s_[0] for s_ in seen]
+        ctx.ob("R2", f"{key}::each-accessor-once::{label}", names == ["A", "B", "C"],
+               f"{fi.qual}: accessors notified {names}, expected each of A, B, C exactly once", fi.loc)
+        ctx.ob("R2", f"{key}::notify-arguments::{label}", all(s_[1] == (off, len(seg), before) for s_ in seen),
+               f"{fi.qual}: status_block_changed called with {[(a_[0], a_[1], 'previous block' if a_[2] == before else 'another block') if len(a_) == 3 else a_ for _n, a_, _b in seen][:1]}, expected ({off}, {len(seg)}, previous block)", fi.loc)
+        ctx.ob("R1", f"{key}::swap-before-notify::{label}", all(s_[2] == want_block for s_ in seen),
+               f"{fi.qual}: at the moment accessors are notified the structure does not hold the new block yet (observers would read the old one)", fi.loc)
+    ctx.floor("R1", f"{key} patches interpreted", n, 5)
+
+
+def _swap_then_notify_shape(ctx, repo, cname):
     fi = repo.own_method(cname, "replace_status_block_segment")
     g = cfg_of(fi)
     key = fi.qual
@@ -359,8 +416,8 @@ def check(ctx):
     ctx.rule("R5", "observer list, by interpretation with plain and bound-method-like observers: registered twice -> called once; removed -> never called; each observer once, in registration order, with (sender, old, new); unwatch_all clears; no other writer of the list")
     ctx.rule("R6", "a full refresh is one update: on both stacks the received segments are installed by a single install call for the whole requested range, made only when the final in-order segment has arrived (C01's install and append guards borrowed) - installing per segment would notify an item that straddles a segment boundary twice and show observers a half-refreshed block")
     from . import c01 as _c01
-    _c01.async_assembly(ctx.borrowed("R6", "C01", only=("R1", "R2")), repo)
-    _c01.sync_assembly(ctx.borrowed("R6", "C01", only=("R1", "R2")), repo)
+    _c01.async_assembly(ctx.borrowed("R6", "C01", only=("R1", "R2", "R3")), repo)
+    _c01.sync_assembly(ctx.borrowed("R6", "C01", only=("R1", "R2", "R3")), repo)
     ctx.rule("R7", "temperatures notify iff the stored reading differs: unit item and temperature item built by their constructors on a model structure, status_block_changed interpreted on block pairs where the unit flips with the word unchanged (silent), the word changes to one presenting the same number under the new unit (one notification), the word changes (one), nothing relevant changes (silent)")
     temperature_notifications(ctx, repo, "R7")
     for c in STRUCT_CLASSES:
